@@ -15,6 +15,8 @@ KEYSETS = {
     'str': (np.array(['a', 'bb', 'bb', 'ccc', 'e']), np.array(['bb', 'e', 'zz', 'bb'])),
     'str-width': (np.array(['a', 'bb', 'bb', 'c', 'e']), np.array(['bb', 'e', 'zzzz', 'bb'])),
     'bytes-free': (np.array([10, 20, 20, 30, 50], dtype='uint8'), np.array([20, 50, 70, 20], dtype='int64')),
+    # identifiers beyond 2**53 (not representable as float64); in the 1-n / n-1 shapes the second key column is uint64 next to an int64 one
+    'large-int': (np.array([2 ** 53, 2 ** 53 + 1, 2 ** 53 + 1, 2 ** 53 + 3, 5], dtype='int64'), np.array([2 ** 53 + 1, 5, 7, 2 ** 53 + 1], dtype='int64')),
 }
 SECOND = {
     'int': (np.array([0, 0, 1, 1, 0]), np.array([0, 0, 1, 1])),
@@ -26,6 +28,7 @@ SECOND = {
     'str': (np.array(['x', 'x', 'y', 'y', 'x']), np.array(['x', 'x', 'y', 'y'])),
     'str-width': (np.array(['x', 'x', 'yy', 'yy', 'x']), np.array(['x', 'x', 'yy', 'y'])),
     'bytes-free': (np.array([0, 0, 1, 1, 0]), np.array([0, 0, 1, 1], dtype='uint8')),
+    'large-int': (np.array([0, 0, 1, 1, 0]), np.array([0, 0, 1, 1])),
 }
 
 
@@ -34,6 +37,8 @@ def veq(a, b):
     try:
         if isinstance(a, (str, np.str_)) != isinstance(b, (str, np.str_)):
             return False
+        if isinstance(a, (int, np.integer)) and isinstance(b, (int, np.integer)):
+            return int(a) == int(b)          # exact, also for int64 against uint64 beyond 2**53
         return bool(a == b)
     except Exception:
         return False
@@ -64,12 +69,13 @@ def shapes_case(R, kind, shape, direction, seln, view):
     dr = Data(k=k2, s=s2, w=np.arange(len(k2), dtype=float), label='R')
     lc = {'1-1': ('k',), 'n-n': ('k', 's'), '1-n': ('k',), 'n-1': ('k', 's')}[shape]
     rc = {'1-1': ('k',), 'n-n': ('k', 's'), '1-n': ('k', 's'), 'n-1': ('k',)}[shape]
-    if shape in ('1-n', 'n-1') and kind in ('str', 'str-width', 'float', 'float-nan', 'float-signed-zero', 'int-float', 'int32-int64', 'bytes-free'):
+    if shape in ('1-n', 'n-1') and kind in ('str', 'str-width', 'float', 'float-nan', 'float-signed-zero', 'int-float', 'int32-int64', 'bytes-free', 'large-int'):
         # second column must be comparable with the key column: reuse the key column shifted
+        other = (lambda a: np.roll(a, 1).astype('uint64')) if kind == 'large-int' else (lambda a: np.roll(a, 1))
         if shape == '1-n':
-            dr = Data(k=k2, s=np.roll(k2, 1), w=np.arange(len(k2), dtype=float), label='R')
+            dr = Data(k=k2, s=other(k2), w=np.arange(len(k2), dtype=float), label='R')
         else:
-            dl = Data(k=k1, s=np.roll(k1, 1), v=np.arange(len(k1), dtype=float), label='L')
+            dl = Data(k=k1, s=other(k1), v=np.arange(len(k1), dtype=float), label='L')
     if direction == 'register-on-left':
         dl.join_on_key(dr, lc if len(lc) > 1 else lc[0], rc if len(rc) > 1 else rc[0])
     else:
